@@ -12,6 +12,15 @@ def _conv(draw):
     kh, kw = draw(st.integers(1, 3)), draw(st.integers(1, 3))
     sh, sw = draw(st.integers(1, 3)), draw(st.integers(1, 3))
     ph, pw = draw(st.integers(0, 2)), draw(st.integers(0, 2))
+    mode = draw(st.sampled_from(['free', 'free', 'free', 'pointwise', 'pointwise_padded', 'same']))
+    if mode.startswith('pointwise'):
+        kh = kw = 1
+        if mode == 'pointwise':
+            sh = sw = 1
+            ph = pw = 0
+    elif mode == 'same':
+        kh = kw = 3
+        sh = sw = ph = pw = 1
     H = draw(st.integers(max(1, kh - 2 * ph), 7))
     W = draw(st.integers(max(1, kw - 2 * pw), 7))
     return {'kind': 'conv', 'cin': draw(st.integers(1, 4)), 'cout': draw(st.integers(1, 4)), 'k': [kh, kw], 's': [sh, sw],
